@@ -76,7 +76,7 @@ pub fn run(run: &Run) {
          width-mapped characters, other compatibility characters and general characters; through Rules::width_mapping_rule of both \
          username profiles. Oracle: per-character map built from my own parse of UnicodeData 16.0.0 (<wide>/<narrow> -> single \
          target, everything else identity) + idempotence. Non-trivial: a mapped character stands after byte offset 0, or a \
-         compatibility character with another tag (<compat>, <super>, <font>, ...) must survive; distinct = distinct (profile,input). Plus the deterministic long-input / call-order batteries of DESIGN.md 8.1 that apply to this property (alignment sweeps 0..72 and around 128..65536 bytes, runs and exact counts, sandwiches and multi-megabyte inputs, exhaustive pair sets, plane/byte aliases, hash-colliding pairs back to back, owned arguments with spare capacity); each battery is a finite list enumerated completely and appears as its own section in 'sections'.",
+         compatibility character with another tag (<compat>, <super>, <font>, ...) must survive; distinct = distinct (profile,input). Plus the deterministic long-input / call-order batteries of DESIGN.md 8.1 and 8.2 that apply to this property (extreme scale, mark neighbours, distinct runs with repeats, environment children, thread lifetime, concurrent distinct inputs; alignment sweeps 0..72 and around 128..65536 bytes, runs and exact counts, sandwiches and multi-megabyte inputs, exhaustive pair sets, plane/byte aliases, hash-colliding pairs back to back, owned arguments with spare capacity); each battery is a finite list enumerated completely and appears as its own section in 'sections'.",
     );
     run.assume("wide/narrow mappings taken from /verif/data/ucd16/UnicodeData.txt (pinned copy)");
     let profs = [Prof::UserMapped, Prof::UserPreserved];
